@@ -52,7 +52,11 @@ def build_world(rng, use_cache, lockstate, structured, exts):
     lo = rng.randrange(50, 400)
     ids = [lo + 3 * i for i in range(6)]
     rng.shuffle(ids)
-    for name in ("a.rs", "sub/c.rs", "b.rsx"):
+    names = ["a.rs", "sub/c.rs", "b.rsx"]
+    if rng.random() < 0.3:
+        # names that end in the letters of a configured extension without having it
+        names += rng.sample(["handlers", "sub/helpers", "cfg.attrs", "xrs", "list.ars", "b.rsxx", "c.rs.orig", "d.RS"], 2)
+    for name in names:
         ns = rng.randrange(2, 4)
         planted = [ids.pop() if (i > 0 and ids and rng.random() < 0.6) else None for i in range(ns)]
         if name == "a.rs" and all(p is not None for p in planted):
